@@ -203,41 +203,48 @@ def addLoop (p : Params) : List Entry → State → Nat → State
     let cur := setSlot cur s.next ⟨re.term, re.index, re.typ, offset⟩
     addLoop p rest { s with current := cur, next := s.next + 1 } (nextOffset offset re.data.size).toNat
 
+/-- first half of `entryLog.AddEntries`: the first new index `idx` already exists — remove that
+entry and everything after it (zero the later slots; if it sits in a rotated file delete the
+later files and make that file current again). -/
+def conflict (p : Params) (s : State) (idx : Nat) : State :=
+  match slotGe p s idx with
+  | (_, none) => s
+  | (none, some lastIdx) =>
+    -- found in the current file: zero the slots after it
+    let s :=
+      if s.next > lastIdx then
+        let n := clearCurLen p s.next lastIdx
+        let o := clearCurOff p s.next lastIdx
+        if n < 0 || o != entrySize * lastIdx then { s with panicked := true }
+        else { s with current := writeZeroSlice p s.current lastIdx n.toNat }
+      else s
+    { s with next := lastIdx }
+  | (some firstIdx, some lastIdx) =>
+    if firstIdx ≥ s.files.length then { s with panicked := true }
+    else
+      -- delete the later files and the current one, re-activate files[firstIdx]
+      let cur := s.files.getD firstIdx default
+      let n := clearRotLen p lastIdx
+      let o := clearRotOff p lastIdx
+      if n < 0 || o != entrySize * lastIdx then { s with panicked := true }
+      else
+        { s with current := writeZeroSlice p cur lastIdx n.toNat, files := s.files.take firstIdx, next := lastIdx }
+
+/-- second half of `entryLog.AddEntries`: the write loop, from the offset after the last kept
+entry of the current file -/
+def addFrom (p : Params) (s : State) (entries : List Entry) : State :=
+  let offset :=
+    if s.next ≥ 1 then
+      let e := getSlot s.current (s.next - 1)
+      e.off + sliceSize p s.current e.off
+    else p.dataOff
+  addLoop p entries s offset
+
 /-- `entryLog.AddEntries` -/
 def addEntries (p : Params) (s : State) (entries : List Entry) : State :=
   match entries with
   | [] => s
-  | e0 :: _ =>
-    let s :=
-      match slotGe p s e0.index with
-      | (_, none) => s
-      | (none, some lastIdx) =>
-        -- found in the current file: zero the slots after it
-        let s :=
-          if s.next > lastIdx then
-            let n := clearCurLen p s.next lastIdx
-            let o := clearCurOff p s.next lastIdx
-            if n < 0 || o != entrySize * lastIdx then { s with panicked := true }
-            else { s with current := writeZeroSlice p s.current lastIdx n.toNat }
-          else s
-        { s with next := lastIdx }
-      | (some firstIdx, some lastIdx) =>
-        if firstIdx ≥ s.files.length then { s with panicked := true }
-        else
-          -- delete the later files and the current one, re-activate files[firstIdx]
-          let cur := s.files.getD firstIdx default
-          let n := clearRotLen p lastIdx
-          let o := clearRotOff p lastIdx
-          if n < 0 || o != entrySize * lastIdx then { s with panicked := true }
-          else
-            { s with current := writeZeroSlice p cur lastIdx n.toNat, files := s.files.take firstIdx, next := lastIdx }
-    -- offset of the first payload to write
-    let offset :=
-      if s.next ≥ 1 then
-        let e := getSlot s.current (s.next - 1)
-        e.off + sliceSize p s.current e.off
-      else p.dataOff
-    addLoop p entries s offset
+  | e0 :: _ => addFrom p (conflict p s e0.index) entries
 
 /-- `entryLog.deleteBefore` -/
 def deleteBefore (p : Params) (s : State) (raftIndex : Nat) : Except Err State :=
@@ -284,14 +291,9 @@ def allEntries (p : Params) (s : State) (lo hi maxSize : Nat) : Array Entry :=
 
 /-! ### reopen (openEntryLogs, Init) -/
 
-def insertBy (key : LogFile → Nat) (x : LogFile) : List LogFile → List LogFile
-  | [] => [x]
-  | y :: ys => if key x < key y then x :: y :: ys else y :: insertBy key x ys
-
-/-- stable sort -/
-def sortBy (key : LogFile → Nat) : List LogFile → List LogFile
-  | [] => []
-  | x :: xs => insertBy key x (sortBy key xs)
+/-- stable sort of files by a key (`List.mergeSort` of core) -/
+def sortBy (key : LogFile → Nat) (l : List LogFile) : List LogFile :=
+  l.mergeSort (fun x y => decide (key x ≤ key y))
 
 /-- `openEntryLogs`: read the directory (by name = by fid), sort by first index, delete the
 files whose first index is 0, the last one becomes the current file. -/
